@@ -3,6 +3,13 @@ HOOK_COMMITS = []   # no source hooks needed so far
 FIX_COMMITS = ["12c75c5 fix: make_patch op order (C13)", "8c66073 fix: resolved pointers escaped (C13)", "4756b94 fix: huawei multi_all unchanged lines (C11)", "81e31d8 fix: implicit default block with its defaults (C17)", "5bfc12a fix: order_config word boundary (C08)", "943f14e fix: patch sort key (C08)", "1bcbbe1 fix: rewrite logic sends the new line ... (C01)", "28efb2a fix: file mode builds the patch from the complete diff (C16)", "c62ee59 fix: pool parent loop leaves only when the done queue is drained (C12)"]
 PENDING = {}
 CLAIMS = {
+    "C19": {
+        "technique": "TLA+ file-deploy semantics (FileDeploy.tla: order-free winner, upload/reload decision); TLC MC that sequential selection equals the order-free winner for all listing orders; real Entire generators / PCDeployerJob / pc_diff judged by a TLC trace judge",
+        "text": "TLC checks over all generator sequences in bounds that add_entire in listing order yields the highest-priority generator per path. Real Entire generator objects in every listing order go through "
+                "run_file_generators().new_files(), PCDeployerJob.parse_result for entire_reload yes/no/force and pc_diff; judged: content and reload command from the winner, upload exactly the changed files (or all on force), "
+                "uploaded bytes = content, reload commands only when enabled and only for uploaded files, diff shown iff contents differ, safe mode keeps only safe generators.",
+        "note": "Deploy driver connector stubbed; UnifiedFileDiffer. Known finding: contents differing only in the final newline.",
+    },
     "C13": {
         "technique": "TLA+ JSON document model: RFC 6902 application as a state machine, glob pointers and fragment merge (JsonDoc.tla); TLC MC of the merge laws over a document schema; real op lists / merge results / filter results judged by a TLC trace judge",
         "text": "TLC checks that the operational fragment merge satisfies the declarative clauses (selected parts = fragment, selected-but-absent removed, everything else untouched, idempotent) over all "
